@@ -163,13 +163,14 @@ def run(pid, tier):
         sc.validate(f"events-{slots}s-{nt}t", ev, "TasksEventTrace", dict(NTasks=nt, Slots=slots, Ops=100000, IdxMod=256, MaxHeld=slots, Abandons=True, SentOnly=True),
                     constraints=("Track", "Judge"), key_fn=lambda c: (len(c["events"]),), sample_fn=lambda c: False)
     return sc.finish(
-        "one case = one seeded schedule of 2..4 tasks on one MainDevice, compared operation by operation with the same tasks run "
+        "one case = one seeded schedule of 2..7 tasks on one MainDevice, compared operation by operation with the same tasks run "
         "alone; distinct by (tasks, slots, frames in flight, overtakes, results)",
         ["Operations are chosen so that their results do not depend on the other tasks' effects (one process data task per "
          "group, one SDO task per SubDevice, written objects are not read).",
          "Tasks are cooperative futures on one thread (the property's quantifier); thread-level interleavings of the frame "
          "storage are the subject of C01-C03/C06.",
-         "The datagram index does not wrap while a frame is outstanding in these runs (at most a few dozen frames per case).",
+         "The datagram index wraps several times in the 'long segmented upload' cases (a response view stays claimed meanwhile); no case "
+         "lets it wrap while a frame is still on the network (Tasks.tla's WrapAssumption: latencies are 0..500 us).",
          "Frame-level events come from ethercrab's verification hooks (slot state changes with the party that made them); "
          "whether a compare-exchange succeeded is derived from the tracked slot state, which is exact on one thread."])
 
